@@ -25,11 +25,11 @@ class Graph:
         # dyndep information: what the (clean) dyndep file says about each statement it serves
         by_out0 = {s["outs"][0]: s for s in sc["stmts"]}
         for s in sc["stmts"]:
-            if s["kind"] != "scan" or s["outs"][0] in unloaded:
+            if s["kind"] != "scan" or (set(all_outs(s)) & set(unloaded)):
                 continue
             for out0, src in s["serves"]:
                 t = by_out0.get(out0)
-                if t is None or t["dyndep"] != s["outs"][0]:
+                if t is None or t["dyndep"] not in all_outs(s):      # (the dyndep file may be a further output of its producer)
                     continue
                 c = sources.get(src, "")
                 self.dd_iins[t["id"]] = directives(c, "#include")
